@@ -4,7 +4,7 @@
     rewinding and PS unforgeability are not formalised (DESIGN.md section 6). *)
 From ZK Require Import Model.Field Model.Zq Model.QBls Model.Pedersen Model.PS Model.Schnorr Model.Range
   Model.Abacus Model.Amount Proofs.PSProofs Proofs.SchnorrProofs Proofs.RangeProofs Proofs.EstablishProofs
-  Proofs.PayProofs Proofs.ChallengeProofs.
+  Proofs.PayProofs Proofs.ChallengeProofs Proofs.AmountProofs.
 Local Open Scope fld_scope.
 
 Theorem C02_pay_verify_spec : forall (K : Fld) (close_tag : K) (pk : pkey K) rp hr gr nonce eps (p : pproof K) c v,
@@ -89,9 +89,32 @@ Theorem C02_honest_payment_accepted : forall (K : Fld) (close_tag : K) (pk : pke
             commit hr [gr] [lock] (d_bfr d)).
 Proof. exact pay_complete. Qed.
 
+(** from the field to the integers (BLS12-381 scalar field): if the nine digit messages extracted for each new balance are
+    genuine digits (each in [0,128) - what the range key's signatures attest; PS unforgeability is the named assumption) and
+    the old balances and the amount are in their machine ranges, then the field equations of an accepted payment are integer
+    equations: exactly the amount moves, both new balances are in [0, 2^63-1], the sum is conserved. No reduction modulo q can
+    hide an overdraft. *)
+Theorem C02_accepted_payment_moves_exactly_the_amount : forall (ocb omb a : Z) dsc dsm,
+  (0 <= ocb <= i64_max)%Z -> (0 <= omb <= i64_max)%Z -> is_i64 a ->
+  length dsc = 9%nat -> Forall (fun d => (0 <= d < 128)%Z) dsc ->
+  length dsm = 9%nat -> Forall (fun d => (0 <= d < 128)%Z) dsm ->
+  horner Fq (map (@of_Z Fq) dsc) = fsub (balance_scalar (K:=Fq) ocb) (amount_scalar a) ->
+  horner Fq (map (@of_Z Fq) dsm) = fadd (balance_scalar (K:=Fq) omb) (amount_scalar a) ->
+  zweighted dsc = (ocb - a)%Z /\ zweighted dsm = (omb + a)%Z /\
+  (0 <= ocb - a <= i64_max)%Z /\ (0 <= omb + a <= i64_max)%Z /\ (zweighted dsc + zweighted dsm = ocb + omb)%Z.
+Proof. exact accepted_payment_moves_exactly_the_amount. Qed.
+
+(** non-vacuity, and the failure it excludes: with out-of-range "digits" the same field equation is satisfiable for an overdraft *)
+Example C02_integer_update_nonvacuous :
+  horner Fq (map (@of_Z Fq) [90; 0; 0; 0; 0; 0; 0; 0; 0]%Z) = fsub (balance_scalar (K:=Fq) 100) (amount_scalar 10) /\
+  horner Fq (map (@of_Z Fq) [-900; 0; 0; 0; 0; 0; 0; 0; 0]%Z) = fsub (balance_scalar (K:=Fq) 100) (amount_scalar 1000).
+Proof. split; apply (feqb_ok Fq); vm_compute; reflexivity. Qed.
+
 Print Assumptions C02_pay_verify_spec.
 Print Assumptions C02_pay_special_soundness.
 Print Assumptions C02_pay_transcript_binds.
 Print Assumptions C02_one_token_two_nonces.
 Print Assumptions C02_pay_unique_challenge.
 Print Assumptions C02_honest_payment_accepted.
+Print Assumptions C02_accepted_payment_moves_exactly_the_amount.
+Print Assumptions C02_integer_update_nonvacuous.
